@@ -671,6 +671,41 @@ func c15Stale(c *core.Ctx) {
 		}
 	}
 	c.Need(R, "uses of c.br in messageReader.Read", n, 1)
+	// the guard compares object identity, so it only works when every message gets its own reader object
+	const R2 = "C15.8b"
+	c.Rule(R2, "one reader object per message: every store to Conn.messageReader in package webtransport is nil or a fresh &messageReader{…} literal, and in NextReader such a fresh allocation is executed on every path to the return that hands a reader out (a reader object reused for the next message makes the stale-reader test `c.messageReader != r` true for the old handle too: reading the old handle consumes the new message's payload)")
+	nStores := 0
+	for _, ua := range fieldAssignsAnywhere(c, "Conn.messageReader") {
+		nStores++
+		fresh := false
+		if ua.Rhs != nil {
+			if core.IsNil(ua.U.Info(), ua.Rhs) {
+				fresh = true
+			} else if ue, ok := ast.Unparen(ua.Rhs).(*ast.UnaryExpr); ok && ue.Op == token.AND {
+				_, fresh = ast.Unparen(ue.X).(*ast.CompositeLit)
+			}
+		}
+		c.Check(R2, keyf("%s/messageReader=nil|fresh", ua.U.Key), ua.Stmt.Pos(), fresh, "the current-reader slot only ever receives nil or a newly allocated reader")
+	}
+	c.Need(R2, "stores to Conn.messageReader", nStores, 2)
+	nr := c.Fn(R2, wtNextReader)
+	if nr != nil {
+		ng := nr.Graph()
+		var allocs []core.Loc
+		for _, a := range fieldAssigns(nr, "Conn.messageReader") {
+			if a.Rhs != nil && !core.IsNil(nr.Info(), a.Rhs) {
+				allocs = append(allocs, a.Loc)
+			}
+		}
+		handed := 0
+		for _, r := range returnsIn(nr) {
+			if len(r.Stmt.Results) == 3 && !core.IsNil(nr.Info(), r.Stmt.Results[1]) {
+				handed++
+				c.Check(R2, wtNextReader+"/fresh-reader-on-every-path-to-return", r.Stmt.Pos(), len(allocs) > 0 && ng.DominatesAny(allocs, r.Loc), "the reader handed out was allocated for this message")
+			}
+		}
+		c.Need(R2, "returns of NextReader that hand a reader out", handed, 1)
+	}
 }
 
 // wtPeekValidity — C15.2b / C13.3b / C14.2c / C02.9: the slice returned by
